@@ -151,3 +151,50 @@ def switch_on(body, bb):
             continue
         break
     return (l, neg, t[2], t[3])
+
+
+def backward_slice(body, local, depth=16):
+    """(calls, fields) in the intra-procedural backward data slice of `local`; fields = set of (name, adt)."""
+    from .facts import rvalue_operands
+    seen_l = set()
+    calls = []
+    fields = set()
+    seen_c = set()
+    work = [(local, 0)]
+
+    def note_place(pl):
+        for p in pl[1]:
+            if isinstance(p, list) and p[0] == "f":
+                fields.add((p[2], p[3]))
+
+    while work:
+        l, d = work.pop()
+        if l in seen_l or d > depth:
+            continue
+        seen_l.add(l)
+        for (bi, si, kind, st) in body.defs().get(l, []):
+            if kind in ("call", "pcall"):
+                c = body.call_at(bi)
+                if c is not None and c.bb not in seen_c:
+                    seen_c.add(c.bb)
+                    calls.append(c)
+                    for a in c.args:
+                        if a[0] in ("c", "m"):
+                            note_place(a[1])
+                            work.append((a[1][0], d + 1))
+            else:
+                rv = st[2]
+                k = rv[0]
+                if k in ("ref", "rawptr"):
+                    pl = rv[2] if k == "ref" else rv[1]
+                    note_place(pl)
+                    work.append((pl[0], d + 1))
+                elif k == "discr":
+                    note_place(rv[1])
+                    work.append((rv[1][0], d + 1))
+                else:
+                    for op in rvalue_operands(rv):
+                        if op[0] in ("c", "m"):
+                            note_place(op[1])
+                            work.append((op[1][0], d + 1))
+    return calls, fields
